@@ -14,6 +14,10 @@ def main():
         src = open(os.path.join(d, fn)).read()
         names = re.findall(r"^theorem\s+([A-Za-z_][A-Za-z0-9_'.]*)", src, re.M)
         out[pid] = {"module": f"MellonProofs.{pid}", "theorems": [f"Mellon.{pid}.{n}" for n in names]}
+    # root import file of the proofs library: every file under MellonProofs/
+    mods = sorted(fn[:-5] for fn in os.listdir(d) if fn.endswith(".lean"))
+    with open(os.path.join(LEAN_DIR, "MellonProofs.lean"), "w") as f:
+        f.write("".join(f"import MellonProofs.{m}\n" for m in mods))
     with open(os.path.join(LEAN_DIR, "obligations.json"), "w") as f:
         json.dump(out, f, indent=1)
     for k, v in out.items():
